@@ -309,7 +309,7 @@ func scenarios(c *lib.Ctx) []*scen {
 }
 
 func build(c *lib.Ctx) []*sched.Scenario {
-	var out []*sched.Scenario
+	out := closureScenarios(c)
 	for _, s := range scenarios(c) {
 		s := s
 		out = append(out, &sched.Scenario{Name: s.name, MaxBound: s.bound, MaxSteps: 20000,
@@ -347,7 +347,7 @@ func main() {
 			"sequentially consistent, statement-atomic interleavings: weaker memory orderings and tearing inside one statement (incl. inside the uninstrumented hash map package) are outside the explored space",
 			"the sequential reference is the same operation sequence on a fresh private object",
 			"iteration, packing, display and copy may fail with the documented 'object modified during ...' error instead of returning a value",
-			"shared closures/classes are not driven by this harness (objects and records are)",
+			"closures sharing variables are driven through compiled code on two interpreter threads (closure.go); classes are immutable and instances are not driven",
 		},
 		QuickBudget: 100, ThoroughBudget: 1200,
 		Procs: 16,
